@@ -24,7 +24,7 @@ package replicationcontroller
 @*/
 
 /*@ func types/replicationcontroller.PodsFilter
-  props C19 C17
+  props C19 C17 C09
   theory rcfilters
   requires [sources-valid] (forall ((j Int)) (=> (and (<= 0 j) (< j (slen {sources})))
         (and (not (= (select (sarr {sources}) j) vnil)) (not (= (obj-ns (select (sarr {sources}) j)) |str!|)))))
